@@ -200,6 +200,9 @@ fn encode<'t, T>(
                 },
                 (_, Separator(_)) => pattern.push_str(sepexpr!("{0}")),
                 (_, Class(class)) => {
+                    // Character classes are always case sensitive, so reset any casing flag left
+                    // behind by a preceding literal.
+                    pattern.push_str("(?-i)");
                     grouping.push_with(pattern, || {
                         use crate::token::Class as ClassToken;
 
